@@ -99,6 +99,13 @@ func checkEnvAlter(c envAlterCase, r *h.Rec) error {
 	}
 	alt := append([]byte{}, c.Orig...)
 	alt[c.Pos] ^= byte(c.Xor)
+	// both SignedAndEnvelopedData entry points (the message has one recipient); they must agree
+	return envAlteredCheck(c, alt, []string{"DecryptAndVerify", "DecryptAndVerifyOnlyOne"}[(c.Pos+c.Xor)%2], r)
+}
+
+// envAlteredCheck judges one altered message (c.Pos only appears in the texts;
+// the fuzz target passes arbitrary bytes with Pos = -1).
+func envAlteredCheck(c envAlterCase, alt []byte, entry string, r *h.Rec) error {
 	ci := cipherByName(c.Cipher)
 	var out error
 	withRand(1, func() {
@@ -135,8 +142,6 @@ func checkEnvAlter(c envAlterCase, r *h.Rec) error {
 			}
 		case "saed":
 			who := id(c.Recip)
-			// both entry points (the message has one recipient); they must agree
-			entry := []string{"DecryptAndVerify", "DecryptAndVerifyOnlyOne"}[(c.Pos+c.Xor)%2]
 			r.Label("entry:%s", entry)
 			got, err = openSAED(entry, p7, who.cert, who.key, func() error { return p7.Verify() })
 			if err == nil {
